@@ -10,7 +10,7 @@ Out(res) == [ok |-> res.ok, n |-> res.n, sel |-> res.sel, rows |-> res.rows, pro
 
 \* (evaluated as a state invariant of the states that carry a case, so that the primed variables are not needed)
 Emit == done =>
-          PrintT(<<"T", ToJson([kind |-> St.kind, ph |-> St.ph, set |-> St.set, wh |-> St.wh, nslots |-> St.nslots,
+          PrintT(<<"T", ToJson([kind |-> St.kind, ph |-> St.ph, set |-> St.set, wh |-> St.wh, nslots |-> St.nslots, nrows |-> St.nrows,
                                 form |-> form, sv |-> Sv, ps |-> Ps,
                                 once |-> Out(Once), twice |-> Out(Twice)])>>)
 =============================================================================
